@@ -50,9 +50,22 @@ RoundTripBig(e) ==
   /\ e.back_formulae = e.formulae
   /\ e.probe_equal
 
+(* an archive written by the library's driver analyse_formulae: one entry per line of the archived formula   *)
+(* list, ENTRY i IS THE RESULT OF LINE i (computed through the API on its own), the list in the given order  *)
+LineName(i) == "formula-" \o ToString(i - 1)
+LinesMatch(e) ==
+  /\ e.outcome = "ok"
+  /\ ToSet(e.back.entries) = {LineName(i) \o ".bdd" : i \in 1..Len(e.formulae)} \cup {"model.aeon", "formulae.txt"}
+  /\ DOMAIN e.back.sets = {LineName(i) : i \in 1..Len(e.formulae)}
+  /\ \A i \in 1..Len(e.formulae) : ToSet(e.back.sets[LineName(i)]) = ToSet(e.lines_lib[i]) /\ ~e.back.aux[LineName(i)]
+  /\ e.back.formulae = e.formulae
+  /\ SameNetwork(e.net_in, e.back.net)
+
 VARIABLE ei
 Init == ei \in 1..Len(Doc.events)
 Next == UNCHANGED ei
 Verdict == LET e == Doc.events[ei] IN
-             PrintT(<<"VERDICT", e.id, <<B2S(IF "big" \in DOMAIN e /\ e.big THEN RoundTripBig(e) ELSE RoundTrip(e))>>>>)
+             PrintT(<<"VERDICT", e.id, <<B2S(IF "big" \in DOMAIN e /\ e.big THEN RoundTripBig(e)
+                                             ELSE IF "via_analyse" \in DOMAIN e /\ e.via_analyse THEN LinesMatch(e)
+                                             ELSE RoundTrip(e))>>>>)
 =============================================================================
